@@ -129,8 +129,39 @@ func minI(a, b int) int {
 	return b
 }
 
+// failingWriter accepts `after` bytes, then fails in one of the ways a stream can fail.
+type failingWriter struct {
+	mode, after, seen int
+	failed            bool
+}
+
+func (w *failingWriter) Write(p []byte) (int, error) {
+	room := w.after - w.seen
+	if room >= len(p) {
+		w.seen += len(p)
+		return len(p), nil
+	}
+	w.failed = true
+	if room < 0 {
+		room = 0
+	}
+	w.seen += room
+	switch w.mode {
+	case 0:
+		return 0, io.EOF
+	case 1:
+		return room, io.EOF
+	case 2:
+		return 0, io.ErrClosedPipe
+	case 3:
+		return room, io.ErrShortWrite
+	default:
+		return room, fmt.Errorf("harness: write failed")
+	}
+}
+
 func c01(c *wk.Ctx) {
-	c.Note("rule", "streams: rt = random valid header x payload (edge and random lengths) written with Message.Write, compared byte-for-byte with the reference layout, read back with Message.Read under several fragmentation plans (fixed chunk 1..64, random chunks, all-at-once, final chunk delivered with io.EOF) with exact consumption accounting; seq = 1..20 messages back to back under a random fragmentation (once into fresh Message values, once into one reused Message variable) then a final read that must fail; bad = invalid headers (magic, version, type, over-limit size) that must be refused with <=28 bytes consumed; big = messages of 1 MiB / limit-1 / limit. A case is non-trivial and distinct by (stream, payload length class, message type, fragmentation plan, verdict class).")
+	c.Note("rule", "streams: rt = random valid header x payload (edge and random lengths) written with Message.Write, compared byte-for-byte with the reference layout, read back with Message.Read under several fragmentation plans (fixed chunk 1..64, random chunks, all-at-once, final chunk delivered with io.EOF) with exact consumption accounting; seq = 1..20 messages back to back under a random fragmentation (once into fresh Message values, once into one reused Message variable) then a final read that must fail; failed-write = 1-4 messages to a healthy stream, half of them preceded by a write to a stream that fails (0 or some bytes accepted, io.EOF / closed pipe / short write / other error): each healthy write puts exactly its own encoding on the wire; bad = invalid headers (magic, version, type, over-limit size) that must be refused with <=28 bytes consumed; big = messages of 1 MiB / limit-1 / limit. A case is non-trivial and distinct by (stream, payload length class, message type, fragmentation plan, verdict class).")
 	plans := []fragPlan{
 		{"all", func(*rand.Rand) func(int) int { return planAll() }, false},
 		{"all+eof", func(*rand.Rand) func(int) int { return planAll() }, true},
@@ -247,6 +278,40 @@ func c01(c *wk.Ctx) {
 		if c.WantSample() && i%97 == 0 {
 			c.Sample(map[string]interface{}{"stream": "seq", "messages": n, "total_bytes": len(wire), "plan": pl.name, "fixed_chunk": k})
 		}
+	})
+
+	// failed-write: a write that fails (in every way a stream can fail) must leave nothing behind: the
+	// next message written, to the same or to another stream, is exactly its own 28+n bytes
+	c.Cases("failed-write", c.Pick(3000, 60000), func(i int, rng *rand.Rand) {
+		var good recWriter
+		n := 1 + rng.Intn(4)
+		for k := 0; k < n; k++ {
+			h, p := genHeader(rng), genPayload(rng, 2000)
+			m := toMsg(h, p)
+			if rng.Intn(2) == 0 {
+				// this one goes to a failing stream first
+				fw := &failingWriter{mode: rng.Intn(5), after: rng.Intn(28 + len(p) + 1)}
+				h2, p2 := genHeader(rng), genPayload(rng, 2000)
+				m2 := toMsg(h2, p2)
+				if err := m2.Write(fw); err == nil && fw.failed {
+					c.Viol("failed-write", i, "write=error-swallowed", fmt.Sprintf("Message.Write returned nil although the stream failed (mode %d after %d bytes)", fw.mode, fw.after), nil)
+					return
+				}
+				c.Count("writes_to_a_failing_stream", 1)
+			}
+			before := len(good.buf)
+			if err := m.Write(&good); err != nil {
+				c.Viol("failed-write", i, "write=error", "Message.Write to a healthy stream failed after a failed write elsewhere: "+err.Error(), nil)
+				return
+			}
+			want := refcodec.Frame(h, p)
+			if got := good.buf[before:]; !bytes.Equal(got, want) {
+				c.Viol("failed-write", i, "write=layout/after-failed-write", fmt.Sprintf("after a failed write the next message put %d bytes on the wire, its encoding has %d", len(got), len(want)),
+					map[string]interface{}{"wire": hx(got, 96), "expected": hx(want, 96)})
+				return
+			}
+		}
+		c.Nontrivial(wk.Hash64("failed-write", n, i%64))
 	})
 
 	c.Cases("bad", c.Pick(6000, 200000), func(i int, rng *rand.Rand) {
